@@ -156,7 +156,7 @@ def attribute(case, msgs):
 
 def command_texts(quick):
     """(label, text): files of many commands each (a failing file is re-run command by command)"""
-    k_all, k_core = (2, 3) if quick else (3, 4)
+    k_all, k_core = (2, 3) if quick else (3, 5)
     arglists = [list(s) for n in range(k_all + 1) for s in itertools.product(LEX, repeat=n)]
     arglists += [list(s) for n in range(k_all + 1, k_core + 1) for s in itertools.product(CORE, repeat=n)]
     cmds = []
